@@ -159,9 +159,34 @@ def isort : List Int → List Int
 /-- `range(1, n+1)` -/
 def vars (n : Nat) : List Int := (List.range n).map (fun (i : Nat) => (i : Int) + 1)
 
-/-- `sorted(random.sample(range(1, n+1), k))` -/
-def drawVars (k n : Nat) : RandM (List Int) := do
-  let idx ← sample n k
-  pure (isort (idx.map (fun (i : Nat) => (i : Int) + 1)))
+/-- `sys.maxsize` (64-bit CPython): `random.sample` refuses a population longer than this -/
+abbrev sysMaxsize : Nat := 2 ^ 63 - 1
+
+/-- `while len(chosen) < k: chosen.add(random.randint(1, n))` of `sample_variables` (branch
+`n > sys.maxsize`).  The loop has no bound of its own: every iteration consumes one draw, so the
+recursion is over the draw list (no draw left = `outOfDraws`).  `chosen` (a set in the code) is kept
+in insertion order, newest first; a repeated value is simply not added. -/
+def rejectVars (k n : Nat) : List Int → RandM (List Int)
+  | chosen, [] => if chosen.length < k then .error .outOfDraws else .ok (chosen, [])
+  | chosen, d :: rest =>
+    if chosen.length < k then
+      match d with
+      | .randint a b v =>
+        if a = 1 ∧ b = (n : Int) then rejectVars k n (if chosen.contains v then chosen else v :: chosen) rest
+        else .error .mismatch
+      | _ => .error .mismatch
+    else .ok (chosen, d :: rest)
+
+/-- `sample_variables(n, k)`: `sorted(random.sample(range(1, n+1), k))` when `n <= sys.maxsize`;
+otherwise `k > n` ⇒ ValueError, else distinct `randint(1, n)` answers collected in a set until
+there are `k`, sorted -/
+def drawVars (k n : Nat) : RandM (List Int) :=
+  if n ≤ sysMaxsize then do
+    let idx ← sample n k
+    pure (isort (idx.map (fun (i : Nat) => (i : Int) + 1)))
+  else if n < k then RandM.raise .valueError
+  else do
+    let chosen ← rejectVars k n []
+    pure (isort chosen)
 
 end Cnfgen.Rand
